@@ -17,4 +17,10 @@ theorem VmFixedSrc_fits (d e : Nat) : fixedFitsSrc (fixedBufLenSrc d e) d e = tr
 /-- the two writes: packet start at `data_offset` first, then packet end at `data_end_offset` (interpreter path and Cranelift path alike) -/
 theorem VmFixedSrc_prepare (buf : Bytes) (d e memBase memLen : Nat) : fixedPrepareSrc buf d e memBase memLen = fixedPrepare buf d e memBase memLen := rfl
 
+/-- which prologue configuration each VM kind compiles with (std and no_std paths alike; the no-data VM delegates to the raw one) — the table the driver
+    and `C03_x86_*` / `C09` use: metadata VM (true, false), fixed-metadata VM (true, true), raw and no-data VMs (false, false) — and how the kinds without a
+    metadata buffer reach the interpreter (an empty metadata buffer; for the no-data VM an empty packet as well: `Vm.memOf`) -/
+theorem VmFixedSrc_kinds : jitFlagsSrc = [("EbpfVmMbuff", true, false), ("EbpfVmFixedMbuff", true, true), ("EbpfVmRaw", false, false)] ∧
+    mbuffPassShape = true ∧ rawPassShape = true ∧ noDataPassShape = true := by decide
+
 end Rbpf
